@@ -263,9 +263,16 @@ func c13Record(tier string, seed int64, emit func(interface{})) {
 		if i < nBig {
 			k = 1 + rng.Intn(3)
 		}
+		many := i == nBig // one list with more records than any channel the library allocates itself (Parse: 1000 slots)
+		if many {
+			k = 1100 + rng.Intn(1500)
+		}
 		var recs []fasta.Fasta
 		for j := 0; j < k; j++ {
 			m := rng.Intn(400)
+			if many {
+				m = rng.Intn(12)
+			}
 			switch {
 			case i < nBig && j == 0:
 				m = 70000 + rng.Intn(230000) // well beyond any fixed line buffer
